@@ -41,6 +41,7 @@ def outcomeName : Outcome → String
 def qoutcomeName : QOutcome → String
   | .servedBy j w q q' => if j == w && q == q' then "winner" else "foreign"
   | .qblocked => "blocked"
+  | .qeof => "eof"
 
 def showSet (l : List String) : String :=
   let l := (l.eraseDups.toArray.qsort (· < ·)).toList
@@ -81,11 +82,18 @@ def answer (line : String) : String :=
     match toks.mapM parseStackCmd with
     | some cmds => if cmds.isEmpty then "bad-op" else stackAnswer cmds
     | none => "bad-op"
-  | ["portfolio", e, a, ms] =>
-    match parseFlag "eoe" e, parseFlag "atomic" a, (ms.splitOn ",").mapM parseBeh with
-    | some eoe, some atomic, some bs =>
+  | "portfolio" :: e :: a :: rest =>
+    -- optional 4th token `crash=1`: the winner may die after its answer (fault model `OS.serveCrash`)
+    let (crashTok, msTok) := match rest with
+      | [c, ms] => (some c, some ms)
+      | [ms] => (none, some ms)
+      | _ => (none, none)
+    let crash := match crashTok with | none => some false | some c => parseFlag "crash" c
+    match parseFlag "eoe" e, parseFlag "atomic" a, crash, msTok.bind (fun ms => (ms.splitOn ",").mapM parseBeh) with
+    | some eoe, some atomic, some crash, some bs =>
       if bs.length > 5 then "out-of-fragment" else
-      let cfg : Cfg := { n := bs.length, eoe := eoe, beh := fun _ i => bs.getD i .crash, os := ⟨atomic⟩ }
+      let cfg : Cfg := { n := bs.length, eoe := eoe, beh := fun _ i => bs.getD i .crash,
+                         os := { killAtomic := atomic, serveCrash := crash } }
       let so := (solveOutcomes cfg fuel init).map outcomeName
       let qo := (queryOutcomes cfg fuel init 0).map qoutcomeName
       let cl := (allowed cfg 1).map outcomeName
@@ -93,7 +101,7 @@ def answer (line : String) : String :=
       let ntrans := (states.map fun t => (isuccs cfg t).length).sum
       "ok " ++ showSet so ++ " | " ++ showSet qo ++ " | " ++ showSet cl ++ " | states=" ++ toString states.length ++
         " transitions=" ++ toString ntrans
-    | _, _, _ => "bad-op"
+    | _, _, _, _ => "bad-op"
   | _ => "bad-op"
 
 partial def loop (h : IO.FS.Stream) : IO Unit := do
